@@ -1235,7 +1235,8 @@ def run(ctx):
                     shards.append((7.0, wide_worker, (5, 300, ssss, [cse], first)))
     # large thresholds (both modes): (k, n, indexes that must appear together in one k-subset)
     # (40 shares 1..40 and 24 shares with the indexes 232..255: the products of share indexes in the Lagrange terms pass degree 128)
-    for k, n, must in ([(16, 257, (256, 257)), (32, 32, (16, 17)), (40, 40, (2, 3)), (24, 257, tuple(range(232, 256)))] +
+    for k, n, must in ([(16, 257, (256, 257)), (32, 32, (16, 17)), (40, 40, (2, 3)), (24, 257, tuple(range(232, 256))),
+                        (40, 257, tuple(range(216, 256)))] +      # k * deg(index) = 280: X^k is reduced more than once
                        ([] if q else [(64, 64, (4, 5)), (128, 128, (2, 3)), (17, 40, (16, 17)), (33, 40, (2, 3, 4, 5))])):
         for ssss in (False, True):
             shards.append((4.0, large_worker, (k, n, ssss, must)))
